@@ -118,6 +118,10 @@ func (t c16Type) genLit(r *gen.Rng) (c16Lit, []interface{}) {
 			lit = litDecText(gen.Pick(r, []string{"2.5", "0.999", "7.0", "100.25"}))
 		case roll == 4 && t.signed:
 			lit = litStr("+" + new(big.Int).Abs(v).String())
+		case roll == 5 && v.Sign() >= 0 && v.Cmp(maxInt64Big) <= 0: // leading zeros: still decimal
+			lit = c16Lit{"0" + v.String(), emit.App("LInt", emit.ZBig(v))}
+		case roll == 6 && v.Sign() >= 0:
+			lit = litStr("00" + v.String())
 		default:
 			if v.Sign() >= 0 && v.Cmp(maxInt64Big) <= 0 && r.Chance(2, 3) {
 				lit = litInt(v)
@@ -127,7 +131,7 @@ func (t c16Type) genLit(r *gen.Rng) (c16Lit, []interface{}) {
 		}
 		return lit, pool
 	case "dec":
-		c := gen.Pick(r, []string{"0.0", "1.5", "2.25", "0.1", "100.75", "0.001", "3.0", "0.30000000000000004", "123456789.125", "0.3"})
+		c := gen.Pick(r, []string{"0.0", "1.5", "2.25", "0.1", "100.75", "0.001", "3.0", "0.30000000000000004", "123456789.125", "0.3", "010.5", "3."})
 		f, _ := strconv.ParseFloat(c, 64)
 		pool := []interface{}{f, f, math.Nextafter(f, math.Inf(1)), math.Nextafter(f, math.Inf(-1)), f + 0.5, f - 0.5, 0.0, -f, float64(r.Intn(2000))/8 - 100}
 		var lit c16Lit
